@@ -2065,7 +2065,9 @@ def exec_c10(plan):
                     # expansion when macros take registers or index with parameters
                     # (expansion that preserves the definitions leaves them in the circuit)
                     a_excused = tok == "A" and blocks_a and "M" not in done
-                    if strict and cur[0] == (e0.get("ov") or {}) and not a_excused:
+                    # (a dictionary that gives a let a bool is no validated dictionary: the
+                    # library is right to refuse it)
+                    if strict and cur[0] == (e0.get("ov") or {}) and not a_excused and not any(isinstance(v_, bool) for v_ in cur[0].values()):
                         S.viol.add("C10", "pass_applicable_on_valid_program", o["kind"], o.get("where", ""), "sequence %s on a valid program: %s" % (label, o.get("exc")), op=si)
                     S.probe("sequence_not_applicable")
                     ok = False
